@@ -301,6 +301,13 @@ def gen_modgraph(rng, profile=None):
             for k in range(rng.randint(2, 3)):
                 extras.append({"kind": "callfam_u", "name": "%scfu%d" % (px, k), "tr": tr(), "helper_mod": "%scfh" % px,
                                "helper": "%scfhhelper" % px, "setup": "%ssetup" % px})
+    if pr["families"]:
+        if rng.random() < 0.4:
+            # equally named types in two modules, both extended (under renames) in a third
+            extras.append({"kind": "eqtypes", "name": "%seqt" % px, "tr": tr()})
+        if rng.random() < 0.4:
+            # a generic type-bound procedure inherited, not overridden, by several extending types
+            extras.append({"kind": "genbind", "name": "%sgbd" % px, "tr": tr(), "n": rng.randint(2, 3)})
     if pr["dup_modules"] and rng.random() < 0.35:
         victim = rng.choice(mods)
         extras.append({"kind": "dupmod", "name": "%sdup_of_%s" % (px, victim["name"]), "modname": victim["name"], "tr": tr()})
@@ -514,6 +521,28 @@ def render_extra(e, rng):
                 "contains", "  subroutine %s()" % e["setup"], "    !! setup of %s" % n, "    call %s()" % e["helper"],
                 "  end subroutine %s" % e["setup"], "  subroutine %s_run()" % n, "    call %s()" % e["setup"],
                 "  end subroutine %s_run" % n, "end module %s" % n]
+    if k == "eqtypes":
+        n = e["name"]
+        L = []
+        for x in ("a", "b"):
+            L += ["module %s_%s" % (n, x), "  !! %s %s" % (e["tr"], x), "  implicit none", "  type :: %s_base" % n,
+                  "    integer :: from_%s" % x, "  end type %s_base" % n, "end module %s_%s" % (n, x), ""]
+        L += ["module %s_c" % n, "  !! %s c" % e["tr"], "  use %s_a, only: %s_ba => %s_base" % (n, n, n),
+              "  use %s_b, only: %s_bb => %s_base" % (n, n, n), "  implicit none",
+              "  type, extends(%s_ba) :: %s_ca" % (n, n), "    integer :: ia", "  end type %s_ca" % n,
+              "  type, extends(%s_bb) :: %s_cb" % (n, n), "    integer :: ib", "  end type %s_cb" % n, "end module %s_c" % n]
+        return L
+    if k == "genbind":
+        n = e["name"]
+        L = ["module %s" % n, "  !! %s" % e["tr"], "  implicit none", "  type :: %s_num" % n, "    integer :: v", "  contains",
+             "    procedure :: %s_add_i" % n, "    procedure :: %s_add_r" % n, "    generic :: add => %s_add_i, %s_add_r" % (n, n),
+             "  end type %s_num" % n]
+        for i in range(e["n"]):
+            L += ["  type, extends(%s_num) :: %s_child%d" % (n, n, i), "    integer :: w%d" % i, "  end type %s_child%d" % (n, i)]
+        L += ["contains", "  subroutine %s_add_i(self, i)" % n, "    class(%s_num), intent(inout) :: self" % n, "    integer, intent(in) :: i",
+              "  end subroutine %s_add_i" % n, "  subroutine %s_add_r(self, r)" % n, "    class(%s_num), intent(inout) :: self" % n,
+              "    real, intent(in) :: r", "  end subroutine %s_add_r" % n, "end module %s" % n]
+        return L
     if k == "dupmod":
         return ["module %s" % e["modname"], "  !! second definition %s" % e["tr"], "  implicit none",
                 "  integer :: dup_marker_%s" % e["modname"], "end module %s" % e["modname"]]
